@@ -275,6 +275,11 @@ ARGS = {
     ('date', 'fromisocalendar'): (2020, 5, 3), ('date', 'fromisoformat'): ('2021-02-03',), ('date', 'fromordinal'): (730000,),
     ('date', 'fromtimestamp'): (86400 * 365,), ('date', 'replace'): (2001, 2), ('date', 'strftime'): ('%Y/%j',),
 }
+KWARGS = {
+    ('str', 'split'): {'sep': ',', 'maxsplit': 1}, ('str', 'rsplit'): {'sep': ',', 'maxsplit': 1}, ('str', 'encode'): {'encoding': 'utf-16', 'errors': 'replace'},
+    ('str', 'expandtabs'): {'tabsize': 3}, ('str', 'splitlines'): {'keepends': True}, ('str', 'format'): {'x': 1},
+    ('int', 'to_bytes'): {'length': 16, 'byteorder': 'little', 'signed': True}, ('date', 'replace'): {'year': 2001, 'day': 2},
+}
 KINDS = {'str': str, 'int': int, 'float': float, 'date': date}
 
 
@@ -289,7 +294,7 @@ def method_names(kind):
     return sorted(n for n in names if n not in base)
 
 
-def _py_method(kind, name, e, args):
+def _py_method(kind, name, e, args, kwargs={}):
     if name == 'before': return e.partition(*args)[0]
     if name == 'after': return e.partition(*args)[2]
     if name == 'before_last': return e.rpartition(*args)[0]
@@ -298,18 +303,27 @@ def _py_method(kind, name, e, args):
         nxt = date(e.year + (e.month == 12), e.month % 12 + 1, 1)
         return nxt - timedelta(days=1)
     attr = getattr(e, name)
-    return attr(*args) if callable(attr) else attr
+    return attr(*args, **kwargs) if callable(attr) else attr
 
 
 def _method_body(kind, name, vl):
-    args = ARGS.get((kind, name), ())
+    r1 = _method_body1(kind, name, vl, ARGS.get((kind, name), ()), {})
+    if r1 is False: return False
+    if (kind, name) in KWARGS:
+        r2 = _method_body1(kind, name, vl, (), KWARGS[(kind, name)])      # the same method called with keyword arguments
+        if r2 is False: return False
+        if r1 is None: return r2
+    return r1
+
+
+def _method_body1(kind, name, vl, args, kwargs):
     want = []
     for e in vl:
         if e is None:
             want.append(None)
             continue
         try:
-            want.append(_py_method(kind, name, e, args))
+            want.append(_py_method(kind, name, e, args, kwargs))
         except Exception:
             return None          # Python itself raises for this element: vacuous
     v = Vector(vl, name='m')
@@ -317,7 +331,7 @@ def _method_body(kind, name, vl):
         return None              # untyped vector: nothing is broadcast
     try:
         attr = getattr(v, name)
-        r = attr(*args) if callable(attr) and not isinstance(attr, Vector) else attr
+        r = attr(*args, **kwargs) if callable(attr) and not isinstance(attr, Vector) else attr
     except Exception as ex:
         return H.fail('%s vector .%s%r on %r raised %r' % (kind, name, args, vl, ex))
     if not isinstance(r, Vector): return H.fail('%s.%s returned %r' % (kind, name, type(r)))
